@@ -8,4 +8,8 @@ MCConfigs3 == { UCfg(3) }
 MCInputs2x3 == InputsOf(2, T3, G1, 3)
 MCInputs3x2 == InputsOf(3, T3, G1, 2)
 MCInputs3x3 == InputsOf(3, T3, G1, 3)
+\* one run for both arities: UInit keeps the pairs with Len(parents) = cfg.n
+MCConfigsBoth == MCConfigs2 \cup MCConfigs3
+MCInputsQuick == MCInputs2x3 \cup MCInputs3x2
+MCInputsThorough == MCInputs2x3 \cup MCInputs3x3
 =============================================================================
